@@ -121,6 +121,10 @@ def run(ctx):
             ctx.require(not any("Gitignore::matched" in n for n in ns), "R11.2", "no-event-level-glob-match",
                         "ignore/filter patterns are not consulted at event level (one ignored path must not reject a multi-path event)", loc,
                         fail="ignore patterns are consulted once per event instead of per path: any ignored path rejects the whole event")
+        wtests = sorted({b[1].replace("^", "") for p in ps for b in p.ev if b[0] == "branch" and ("whitelist" in b[1] or "Event::paths(event), closure)" in b[1])})
+        ctx.require(wtests == ["Iterator::any(Event::paths(event), closure)"], "R11.1", "whitelist-any-path", "the whitelist passes an event as soon as ANY of its paths is an explicitly watched file, with no further condition",
+                    loc, detail=str(wtests)[:300],
+                    fail="the whitelist shortcut is no longer `any path of the event is explicitly watched` (%s): an event that names a watched file together with another path loses its pass" % wtests)
         ctx.require(seen == {"whitelist", "ignore-files", "no-paths", "per-path"}, "R11.1", "all-stages", "all four event-level outcomes exist", loc, detail=str(sorted(seen)))
         # whitelist closure: equality scan
         cls = facts.children(ce)
